@@ -22,6 +22,7 @@ pub fn run_families<F>(ctx: &Ctx, fams: &[Family], stride: usize, f: F) -> u64
 where
     F: Fn(&Pos, &mut Local) + Sync,
 {
+    crate::search::quiet_panics();
     let work: Vec<(usize, usize)> = fams
         .iter()
         .enumerate()
@@ -44,7 +45,12 @@ where
                     buf.clear();
                     (fams[fi].gen)(c, &mut buf);
                     for p in &buf {
-                        f(p, &mut local);
+                        // a panic of the code under test on one state is a finding about that
+                        // state, not the end of the exploration
+                        let r = std::panic::catch_unwind(std::panic::AssertUnwindSafe(|| f(p, &mut local)));
+                        if let Err(e) = r {
+                            ctx.violation("implementation-panicked", p.fen(), serde_json::json!({"fen": p.fen(), "panic": crate::search::panic_text(e)}));
+                        }
                     }
                     total.fetch_add(buf.len() as u64, Ordering::Relaxed);
                     per_family[fi].fetch_add(buf.len() as u64, Ordering::Relaxed);
@@ -132,7 +138,13 @@ where
                             break;
                         }
                         for p in &frontier[i..(i + CHUNK).min(frontier.len())] {
-                            let succ = f(p, &mut local, level);
+                            let succ = match std::panic::catch_unwind(std::panic::AssertUnwindSafe(|| f(p, &mut local, level))) {
+                                Ok(s) => s,
+                                Err(e) => {
+                                    ctx.violation("implementation-panicked", p.fen(), serde_json::json!({"fen": p.fen(), "panic": crate::search::panic_text(e)}));
+                                    Vec::new()
+                                }
+                            };
                             transitions.fetch_add(succ.len() as u64, Ordering::Relaxed);
                             if expand {
                                 for n in succ {
